@@ -145,12 +145,16 @@ def impl_plan(c):
 
 
 def spec_plan(c):
-    """(tri, crosses, non-path keys, last path key) or None when outside the domain."""
-    if c.spec is None or c.spec in ('NOTWF', 'BADAST', 'BADOP'):
+    """(tri, crosses, non-path keys, last path key, placement class) or None when outside the specification (not a tree the
+    grammar builds, a matcher that depends on the match list, `NOTWF MIXED`: an action list with both pass and break).
+    placement class (Driver `placementClass`): 'PLACED' = every action list is Proofs.placedOK, the domain of
+    C03_eval_refines_spec_wide; 'AFTERPASS' / 'ATTAFTERBREAK' = the documented outcome is still computed, the evaluator is
+    known to depart from it (C03_actions_after_pass_ignored, C03_att_after_break_consumes_break)."""
+    if c.spec is None or c.spec.split(' ')[0] in ('NOTWF', 'BADAST', 'BADOP'):
         return None
     e = c.spec.split(' ')
     np = e[2][1:-1]
-    return e[0], e[1] == 'CROSSES', (np.split(',') if np else []), e[3]
+    return e[0], e[1] == 'CROSSES', (np.split(',') if np else []), e[3], (e[4] if len(e) > 4 else 'PLACED')
 
 
 def gm(t):
